@@ -15,3 +15,7 @@ mod k_backend;
 mod k_map;
 #[cfg(kani)]
 mod k_roll;
+#[cfg(kani)]
+mod k_nd;
+#[cfg(kani)]
+mod k_collect;
